@@ -124,6 +124,7 @@ type FCtx struct {
 	inlineStack []string
 	termination []string
 	pureFacts   []string
+	ctxSuffixOf map[string]string
 }
 
 func (fc *FCtx) frame() *frame { return fc.frames[len(fc.frames)-1] }
